@@ -121,4 +121,18 @@ PROPS = {
         assumptions=["z3 sound", "PyVC encoding (DESIGN 2.2)", "IMAPSearch.match dispatches to _match_<op> (getattr) and keeps SearchContext caches coherent", "A-EMAIL renderer determinism"],
         not_decided="(g) header/body/text/sent-date keys; AND/OR beyond the bounded oracle; do_search formatting",
     ),
+    "C09": dict(
+        design_ref="DESIGN.md 7 C09",
+        technique="contract-based deductive verification (PyVC + z3/cvc5 string theory): `safe_rel(name)` as precondition of the path-forming primitive, discharged through IMAPUserServer.get_mailbox/folder_exists back to the parser's _p_mailbox postcondition; exhaustive parser oracle and jail end-to-end oracle (bounded)",
+        category="other",
+        text="For every token the mailbox-name parser can receive, IMAPClientCommand._p_mailbox (after the recorded fix) is proved to return either '' or a name whose path part - after our one-slash hierarchy prefix - is not absolute and has no '..' component "
+             "(string obligations over os.path.normpath's assumed contract). IMAPUserServer.get_mailbox and folder_exists are proved to hand MH.get_folder only such names, given that precondition. So no SELECT/EXAMINE/STATUS/APPEND/COPY/MOVE/... name can make "
+             "os.path.join leave the mail directory.",
+        note="Partial: Mailbox.create/delete/rename and their helpers (which form paths with `maildir / name`) and the LIST reference/pattern path are not yet under contract - they receive names only from _p_mailbox "
+             "(checked syntactically: every assignment of mailbox_name/mailbox_src_name/mailbox_dst_name in parse.py is a _p_mailbox call), and the jail oracle exercises them, but that is bounded evidence. "
+             "Symlinks already inside the mail directory and OS-level confinement are out of scope.",
+        assumptions=["z3/cvc5 sound", "PyVC string encoding (DESIGN 2.2 level 1)", "A-OS: os.path.normpath leaves '..' only as a leading run of a relative path; os.path.join(a, b) stays under a when b is relative without '..'",
+                     "parser primitives _p_astring/_p_simple_string may return any string"],
+        not_decided="create/delete/rename/list call sites (bounded only)",
+    ),
 }
